@@ -658,7 +658,7 @@ int run(const Args& A) {
         { Kind k; k.rel = true; k.rt = range_type::INTEGER; k.el = edge_labeling::EVPLUS; k.rr = reduction_rule::FULLY_REDUCED; kinds.push_back(k); }
     }
     const long nk = long(kinds.size());
-    long rounds = A.thorough() ? 5 : 2;
+    long rounds = A.thorough() ? 10 : 5;
     long ncases = A.cases > 0 ? A.cases : PROBES + 8 * nk * rounds;
     for (long c = PROBES; c < ncases; c++) {
         if (!A.selected(c)) continue;
@@ -676,12 +676,15 @@ int run(const Args& A) {
         bool lsDraw = r.chance(1, 4);
         bool levelSwap = wantLevel && k.rel && !isEVP(k) && lsDraw;
         int heur = heurWanted;
-        unsigned maxK = k.rel ? (A.thorough() ? 4 : 3) : 5;
+        unsigned maxK = k.rel ? (A.thorough() ? 4 : 3) : 7;
         unsigned K;
         {
-            // small K often (exhaustive over permutations), large K sometimes
+            // small K often (exhaustive over permutations); sets also get 5..7 variables regularly: schedules of
+            // the count-based heuristics only become interesting (several pending inversions, tentative swaps
+            // on both sides of a swapped level) from 5 variables on
             unsigned w = r.below(10);
-            K = w < 3 ? 2 : w < 7 ? 3 : w < 9 ? 4 : 5;
+            if (k.rel) K = w < 3 ? 2 : w < 7 ? 3 : w < 9 ? 4 : 5;
+            else K = w < 2 ? 2 : w < 4 ? 3 : w < 5 ? 4 : w < 7 ? 5 : w < 9 ? 6 : 7;
             if (K > maxK) K = maxK;
         }
         Dom D;
@@ -747,7 +750,7 @@ int run(const Args& A) {
                 for (unsigned long i : idx) targets.push_back(nthPermutation(K, i));
                 STATS.hit("perms.exhaustive.K" + std::to_string(K));
             } else {
-                int n = unsupported ? 2 : A.thorough() ? 8 : 4;
+                int n = unsupported ? 2 : (A.thorough() || K >= 5) ? 8 : 4;
                 for (int i = 0; i < n; i++) targets.push_back(nthPermutation(K, r.below(unsigned(nperm))));
                 Order rev = identityOrder(K);
                 std::reverse(rev.begin() + 1, rev.end());
